@@ -9,6 +9,7 @@ mod ast;
 mod c05;
 mod genp;
 mod interp;
+mod lower;
 mod run;
 mod shrink;
 
